@@ -5,9 +5,11 @@ pub mod pipe;
 pub mod proto;
 pub mod sched;
 pub mod simnet;
+pub mod tape;
 
 pub use log::Log;
 pub use sched::{run_sim, Policy, Sched};
+pub use tape::SimRng;
 
 use rand::SeedableRng;
 use rand_chacha::ChaCha8Rng;
@@ -15,13 +17,13 @@ use rand_chacha::ChaCha8Rng;
 /// The single source of randomness of a run: everything is derived from `VERIF_SEED`-based
 /// run seeds through labelled sub-streams, so that adding draws to one stream does not
 /// perturb the others.
-pub fn stream(seed: u64, label: &str) -> ChaCha8Rng {
+pub fn stream(seed: u64, label: &str) -> SimRng {
     let mut h: u64 = 0xcbf29ce484222325;
     for b in label.bytes() {
         h ^= b as u64;
         h = h.wrapping_mul(0x100000001b3);
     }
-    ChaCha8Rng::seed_from_u64(seed ^ h.rotate_left(17))
+    SimRng::new(ChaCha8Rng::seed_from_u64(seed ^ h.rotate_left(17)), label)
 }
 
 /// Deterministic 64-bit mixer (stable across processes, unlike `RandomState`).
